@@ -31,6 +31,8 @@ CONSTANTS Peers, Pubs, Bad,      \* claimed peers; valid key identities; the inv
           Cooldown, MaxNow,
           RepFloor, RepMax, Reward, Penalty, \* reputation scale -RepFloor..RepMax (scaled down for the model)
           CooldownSkipsChecks, InvalidKeyNoPenalty,
+          Versions,            \* protocol versions a handshake may request: subset of {"cur", "old"} ("old": below the version that introduced announce PoW)
+          OldVersionSkipsPow,  \* deviation: the nonce of a handshake that requests an old version is checked at difficulty 0
           MaxLen   \* bound on the length of the action history (model bound)
 
 None == 0     \* no key / no session (Pubs are positive)
@@ -59,25 +61,26 @@ Obs(p, pub, powOK, acc) ==
      cd |-> InCooldown(p), same |-> (rec[p].pub = pub),
      edge |-> (rec[p].has /\ rec[p].ok /\ now - rec[p].last = Cooldown)]
 
-Inbound(p, pub, powOK) ==
+Inbound(p, pub, nonceOK, ver) ==
+    LET powOK == nonceOK \/ (OldVersionSkipsPow /\ ver = "old") IN      \* what the node's check says; the contract looks at nonceOK
     IF pub = Bad
       THEN \* [E] early refusal in handle_transport_handshake; handshake_state_ not touched
            /\ rep' = IF InvalidKeyNoPenalty THEN rep ELSE [rep EXCEPT ![p] = Fail1(@)]
-           /\ obs' = Obs(p, pub, powOK, FALSE)
+           /\ obs' = Obs(p, pub, nonceOK, FALSE)
            /\ UNCHANGED <<now, rec, key, session>>
     ELSE IF InCooldown(p) /\ (CooldownSkipsChecks \/ (rec[p].pub = pub /\ powOK))
       THEN \* [S] repeat inside the cooldown: acknowledged under the existing key
-           /\ obs' = Obs(p, pub, powOK, key[p] # None)
+           /\ obs' = Obs(p, pub, nonceOK, key[p] # None)
            /\ UNCHANGED <<now, rec, key, session, rep>>
     ELSE IF ~powOK
       THEN /\ rec' = [rec EXCEPT ![p] = [has |-> TRUE, ok |-> FALSE, last |-> now, pub |-> pub]]
            /\ rep' = [rep EXCEPT ![p] = Fail1(Fail1(@))]
-           /\ obs' = Obs(p, pub, powOK, FALSE)
+           /\ obs' = Obs(p, pub, nonceOK, FALSE)
            /\ UNCHANGED <<now, key, session>>
     ELSE   /\ rec' = [rec EXCEPT ![p] = [has |-> TRUE, ok |-> TRUE, last |-> now, pub |-> pub]]
            /\ key' = [key EXCEPT ![p] = pub] /\ session' = [session EXCEPT ![p] = pub]
            /\ rep' = [rep EXCEPT ![p] = Clamp(@ + Reward)]
-           /\ obs' = Obs(p, pub, powOK, TRUE)
+           /\ obs' = Obs(p, pub, nonceOK, TRUE)
            /\ UNCHANGED now
 
 Advance(d) == /\ now' = now + d /\ obs' = [kind |-> "adv"]
@@ -98,9 +101,9 @@ D_SessionIsKey == session = key
 VARIABLE hist
 vars == <<now, rec, key, session, rep, obs, hist>>
 
-Acts == {[op |-> "in", p |-> p, pub |-> k, pow |-> w] : p \in Peers, k \in Pubs \cup {Bad}, w \in BOOLEAN}
+Acts == {[op |-> "in", p |-> p, pub |-> k, pow |-> w, ver |-> v] : p \in Peers, k \in Pubs \cup {Bad}, w \in BOOLEAN, v \in Versions}
    \cup {[op |-> "adv", d |-> 1]}
-Do(a) == CASE a.op = "in"  -> Inbound(a.p, a.pub, a.pow)
+Do(a) == CASE a.op = "in"  -> Inbound(a.p, a.pub, a.pow, a.ver)
            [] a.op = "adv" -> Advance(a.d)
 MCInit == Init /\ hist = <<>>
 MCNext == \E a \in Acts : Do(a) /\ hist' = Append(hist, a)
